@@ -1351,6 +1351,25 @@ mkassignexpr(struct expr *l, struct expr *r)
 	return e;
 }
 
+/* 6.3.2.1p1: a structure or union with a const-qualified member (recursively) is not modifiable */
+static bool
+hasconstmember(struct type *t)
+{
+	struct member *m;
+
+	for (; t->kind == TYPEARRAY; t = t->base) {
+		if (t->qual & QUALCONST)
+			return true;
+	}
+	if (t->kind != TYPESTRUCT && t->kind != TYPEUNION)
+		return false;
+	for (m = t->u.structunion.members; m; m = m->next) {
+		if (m->qual & QUALCONST || hasconstmember(m->type))
+			return true;
+	}
+	return false;
+}
+
 struct expr *
 assignexpr(struct scope *s)
 {
@@ -1377,6 +1396,8 @@ assignexpr(struct scope *s)
 	}
 	if (!l->lvalue)
 		error(&tok.loc, "left side of assignment expression is not an lvalue");
+	if (hasconstmember(l->type))
+		error(&tok.loc, "left side of assignment expression has a const-qualified member");
 	next();
 	r = assignexpr(s);
 	if (!op)
